@@ -1,6 +1,7 @@
 import CookModel.Lemmas.Lexer
 import CookModel.Lemmas.Text
 import CookModel.Lemmas.LexLaws
+import CookModel.Lemmas.Spans
 /-
   C04  Every reported source location is in bounds, on char boundaries, faithful.
 
@@ -92,5 +93,87 @@ example : ¬ KindText toyCharSpec .colon [';'] := by
   simp only [List.cons.injEq, and_true] at h1
   subst h1
   revert h2; decide
+
+/-! ### positions and spans (definitions `Boundary`, `SpanOK`, `TextOK` in Lemmas/Spans.lean) -/
+
+/-- In a run of adjacent tokens laid out from `off` (a block, or the whole token stream), with `w`
+    the text the tokens cover: every token start and end is a character boundary of `w`; so is the
+    value `current_offset` returns at every cursor position `i` (the end of the last parsed token,
+    or the start of the block); and `tokens_span` of every non-empty contiguous sub-slice is a span
+    of two boundaries with `start ≤ end`.  No position the block parser derives from tokens can
+    fall inside a multi-byte character or outside the text. -/
+theorem C04_token_positions_are_boundaries {α : Type} [Arith α] (off : Nat) (ts : List Tok) (h : Chain off ts) :
+    (∀ t ∈ ts, Boundary off (ts.flatMap (·.text)) t.start ∧ Boundary off (ts.flatMap (·.text)) t.stop) ∧
+    (∀ i, Boundary off (ts.flatMap (·.text)) (lastStop off (ts.take i))) ∧
+    (ts ≠ [] → ∀ s : BP α, s.toks = ts →
+      Boundary off (ts.flatMap (·.text)) (currentOffset s).1) ∧
+    (∀ i j, i < j → j ≤ ts.length → SpanOK off (ts.flatMap (·.text)) (tokensSpan (slice ts i j))) := by
+  have he := Emb.self off ts
+  have pos : ∀ i, Boundary off (ts.flatMap (·.text)) (lastStop off (ts.take i)) :=
+    fun i => (Emb.slice h he (Nat.le_refl i)).2.start
+  refine ⟨?_, pos, ?_, ?_⟩
+  · intro t ht
+    obtain ⟨i, hi, rfl⟩ := List.mem_iff_getElem.mp ht
+    obtain ⟨c, e⟩ := Emb.slice h he (Nat.le_succ i)
+    rw [slice_one (List.getElem?_eq_getElem hi)] at c e
+    have hs := e.spanOK c
+    rw [← c.1] at hs
+    exact ⟨hs.1, by simpa [lastStop] using hs.2.1⟩
+  · intro hne s hs
+    rw [currentOffset_run, hs]
+    have hb : baseOff ts = off := by
+      cases ts with
+      | nil => exact absurd rfl hne
+      | cons t r => simpa [baseOff] using h.1
+    show Boundary off _ (offAt ts s.cur)
+    unfold offAt; rw [hb]; exact pos _
+  · intro i j hij hj
+    obtain ⟨c, e⟩ := Emb.slice h he (Nat.le_of_lt hij)
+    apply e.tokensSpan c
+    intro h0
+    have := slice_length ts i j
+    rw [h0] at this
+    simp at this; omega
+
+/-- The text `BlockParser::text` assembles from any contiguous sub-slice `b[i..j]` of a block, called
+    with the offset where the slice starts: its span is made of two character boundaries of the
+    block's text with `start ≤ end`; every fragment's span is too, and the fragment's content is
+    exactly the source slice at its offset; and for an empty text the span is the empty span at the
+    given offset. -/
+theorem C04_text_spans_ok (off : Nat) (b : List Tok) (h : Chain off b) (he : EscapedOK b)
+    (i j : Nat) (hij : i ≤ j) :
+    let w := b.flatMap (·.text)
+    let o := lastStop off (b.take i)
+    let t := buildText o (slice b i j)
+    SpanOK off w t.span ∧
+    (∀ f ∈ t.frags, SpanOK off w ⟨f.offset, f.stop⟩ ∧ SliceAt off w f.offset f.text) ∧
+    (t.frags = [] → t.span = Span.pos o) := by
+  intro w o t
+  have hr : RunIn off w off b := ⟨⟨h, he⟩, Emb.self off b⟩
+  have ht := (hr.slice hij).text
+  refine ⟨ht.1, fun f hf => ⟨ht.frag_span f hf, ht.2 f hf⟩, ?_⟩
+  intro h0
+  show Text.span t = _
+  unfold Text.span
+  rw [h0]
+  show Span.pos (buildText o (slice b i j)).emptyOff = _
+  rw [buildText_emptyOff]
+
+/-! non-vacuity: a two-byte character before a token; position 1 (inside `é`) is not a boundary -/
+example : ¬ Boundary 0 ['é', 'x'] 1 := by
+  rintro ⟨pre, suf, h1, h2⟩
+  match pre, h1, h2 with
+  | [], _, h2 => simp [utf8Len] at h2
+  | [c], h1, h2 =>
+    simp only [List.cons_append, List.nil_append, List.cons.injEq] at h1
+    rw [← h1.1] at h2; revert h2; decide
+  | c :: d :: r, h1, h2 =>
+    simp only [List.cons_append, List.cons.injEq] at h1
+    rw [← h1.1, ← h1.2.1] at h2
+    simp [utf8Len] at h2
+    have : 'é'.utf8Size = 2 := by decide
+    omega
+example : SpanOK 0 ['é', 'x'] ⟨2, 3⟩ :=
+  ⟨⟨['é'], ['x'], rfl, by decide⟩, ⟨['é', 'x'], [], rfl, by decide⟩, by decide⟩
 
 end Cook
